@@ -66,6 +66,13 @@ for _pid in ('C01', 'C02', 'C03', 'C04', 'C05', 'C06', 'C07', 'C12'):
     CHECKS[_pid] = {'run': make_merge_check(_pid), 'signatures': {}, 'search': None}
 
 
+from . import coll_family  # noqa: E402
+
+CHECKS['C09'] = {'run': coll_family.run_c09, 'signatures': {}, 'search': None}
+CHECKS['C10'] = {'run': coll_family.run_c10, 'signatures': {}, 'search': None}
+CHECKS['C11'] = {'run': coll_family.run_c11, 'signatures': {}, 'search': None}
+
+
 def run_check(pid, tier, seed):
     chk = CHECKS[pid]
     return core.decide(pid, tier, seed, chk['run'], signatures=chk.get('signatures'),
@@ -94,4 +101,4 @@ def replay(payload):
     return handler(pid, fl)
 
 
-REPLAYERS = {}
+REPLAYERS = {'collection': coll_family.replay, 'collection-perm': coll_family.replay, 'validate': coll_family.replay}
